@@ -16,7 +16,7 @@ TRUSTED_BASE = [
 ]
 ASSUMPTIONS = [
     "std::io::Write::write_all (used for the header) behaves like write_all_vectored over one slice on a non-vectored sink",
-    "compression libraries are outside the model (other codecs are checked on the crate only: scheduled sink vs Vec sink)",
+    "the writer theorems (C16_writer_schedule, C16_writer_error_surfaces) hold for ANY block codec function enc; that the codec loops compute a function of the block bytes independent of the sink is CodecLoop.v (C05, hook H3); the compression libraries themselves are outside the model (per codec: scheduled sink vs Vec sink on the crate)",
 ]
 
 def schedules(rng, ncalls_hint):
